@@ -125,6 +125,14 @@ func (v *Val) AllDeps(out map[string]bool) {
 	if v == nil {
 		return
 	}
+	if v.K == VBottom {
+		// The value of a disabled producer is null whatever the calls it
+		// would have been derived from do, when the disabling is decided
+		// statically; whether it was decided statically is not visible here,
+		// so a bottom never obliges its consumer to wait (the valuations in
+		// which the producer is enabled carry the obligation).
+		return
+	}
 	for d := range v.Deps {
 		out[d] = true
 	}
